@@ -120,9 +120,10 @@ def analyse_roots(prog, rep, roots, reach, crate_filter=LIB):
             continue
         w = tt.TotalWorld(prog, roots, r)
         m = ip.Machine(prog, w)
-        args = [ty_.fresh(prog, t, ("arg", i)) for i, t in enumerate(f["inputs"])]
+        st0 = ip.State()
+        args = ty_.fresh_args(prog, st0, f["inputs"])
         try:
-            outs = m.run(m.start(r, args))
+            outs = m.run(m.start(r, args, st0))
         except ip.AnalysisError as e:
             rep.analysis_error("totality", r, e, b.where())
             continue
